@@ -138,6 +138,18 @@ def to_cell(v):
     return v
 
 
+def is_columns_missing_value(na, raw):
+    """raw is the missing value `na` of the vector's own type (Vector.na_value, pinned per type by C10): '' for
+    strings, NaT for dates and durations, None for booleans and objects, NaN for numbers."""
+    if na is None:
+        return raw is None
+    if isinstance(na, str):
+        return isinstance(raw, str) and raw == na
+    if isinstance(na, (np.datetime64, np.timedelta64)):
+        return isinstance(raw, type(na)) and np.isnat(raw)
+    return isinstance(raw, (float, np.floating)) and raw != raw
+
+
 def ref_kwargs(kw):
     return {k: v for k, v in kw.items() if k != "drop_na"}
 
@@ -163,9 +175,18 @@ def check_case(case, rec):
             one = {"kind": kind, "toks": toks, "calls": [[h, kw]]}
             exp = S.reference(h, xs, drop_na=kw.get("drop_na"), numeric_kind=numeric_kind(kind), **ref_kwargs(kw))
             try:
-                got = to_cell(vector_call(h, v, kw))
+                raw = vector_call(h, v, kw)
+                got = to_cell(raw)
             except Exception as e:
                 rec.violation(h, "vector-raised", one, f"{type(e).__name__}: {e}; expected {exp}")
+                continue
+            eff_drop = S.DEFAULT_DROP_NA[h] if kw.get("drop_na") is None else kw["drop_na"]
+            left = [x for x in xs if x is not None] if eff_drop else xs
+            if (exp == ("missing",) and not left and h in ("min", "max", "mode", "first", "last", "nth")
+                    and not is_columns_missing_value(v.na_value, raw)):
+                # nothing left to take the statistic of: "the column's missing value" - '' for strings, NaT for dates and
+                # durations, None for booleans and objects, NaN for numbers
+                rec.violation(h, "vector-missing-kind", one, f"got {raw!r} ({type(raw).__name__}) for {xs} {kw}: not the missing value of a {V.KINDS.get(kind, kind)} vector")
                 continue
             if not S.accepts(exp, got, V.same_value):
                 rec.violation(h, "vector-value", one, f"got {got!r} expected {exp} for {xs} {kw}")
